@@ -187,6 +187,7 @@ func genDisk(rt *rapid.T) DiskPlan {
 		Chunk:         rapid.SampledFrom([]int{0, 1, 3, 7, 4096}).Draw(rt, "chunk"),
 		EOFWithData:   rapid.Bool().Draw(rt, "eofwithdata"),
 		NoReadDirFile: rapid.IntRange(0, 4).Draw(rt, "noreaddirfile") == 4,
+		DirBatch:      rapid.SampledFrom([]int{0, 0, 1, 2, 3}).Draw(rt, "dirbatch"),
 	}
 }
 
